@@ -36,6 +36,8 @@ TYPES = {
     "INT": ("NUMBER", "NUMBER(38,0)", 38, 0, None, 0),
     "NUMBER(10,2)": ("NUMBER", "NUMBER(10,2)", 10, 2, None, 0),
     "NUMBER(20,5)": ("NUMBER", "NUMBER(20,5)", 20, 5, None, 0),
+    "NUMBER(30,15)": ("NUMBER", "NUMBER(30,15)", 30, 15, None, 0),
+    "NUMBER(38,18)": ("NUMBER", "NUMBER(38,18)", 38, 18, None, 0),
     "FLOAT": ("FLOAT", "FLOAT", None, None, None, 1),
     "VARCHAR": ("TEXT", "VARCHAR(16777216)", None, None, 16777216, 2),
     "VARCHAR(10)": ("TEXT", "VARCHAR(10)", None, None, 10, 2),
